@@ -36,6 +36,8 @@ type History struct {
 	// (ExpectErrors) or by Modules.Parse rejecting a text (ExpectRejected)
 	ExpectErrors   bool `json:"expect_errors,omitempty"`
 	ExpectRejected bool `json:"expect_rejected,omitempty"`
+	// ExpectClean: Process of what was accepted returns no error (a rejected text leaves no trace)
+	ExpectClean bool `json:"expect_clean,omitempty"`
 }
 
 func newHistory(stream, what string, names []string, texts []string) History {
@@ -245,6 +247,7 @@ type walker struct {
 	cyclic   string
 	phase    *string
 	maxDepth int
+	seenT    map[*yang.YangType]bool
 }
 
 // heavyAt decides where the calls whose own cost grows with the square of the depth (Path and
@@ -279,6 +282,8 @@ func (w *walker) walk(e *yang.Entry, depth int) {
 	_ = e.Namespace()
 	_, _ = e.InstantiatingModule()
 	_ = e.DefaultValues()
+	_, _ = e.SingleDefaultValue()
+	w.readType(e.Type, 0)
 	// Find: own path, a bogus path, relative paths
 	if heavyAt(e, depth) {
 		p := e.Path()
@@ -302,6 +307,48 @@ func (w *walker) walk(e *yang.Entry, depth int) {
 	if e.RPC != nil {
 		w.walk(e.RPC.Input, depth+1)
 		w.walk(e.RPC.Output, depth+1)
+	}
+}
+
+// readType reads a resolved type: the printed forms of its range and length restrictions, the
+// tables of an enumeration or bits type, recursively over the members of a union.
+func (w *walker) readType(t *yang.YangType, depth int) {
+	if t == nil || depth > 64 {
+		return
+	}
+	if w.seenT == nil {
+		w.seenT = map[*yang.YangType]bool{}
+	}
+	if w.seenT[t] {
+		return
+	}
+	w.seenT[t] = true
+	_ = t.Range.String()
+	_ = t.Length.String()
+	_ = t.Range.Validate()
+	_ = t.Length.Validate()
+	for _, r := range t.Range {
+		_ = r.Valid()
+		_ = r.Min.String()
+		_ = r.Max.String()
+	}
+	for _, r := range t.Length {
+		_ = r.Min.String()
+		_ = r.Max.String()
+	}
+	for _, en := range []*yang.EnumType{t.Enum, t.Bit} {
+		if en != nil {
+			_ = en.Names()
+			_ = en.Values()
+			_ = en.NameMap()
+		}
+	}
+	_ = t.Equal(t.Root)
+	if t.Root != t {
+		w.readType(t.Root, depth+1)
+	}
+	for _, m := range t.Type {
+		w.readType(m, depth+1)
 	}
 }
 
